@@ -26,6 +26,23 @@ ACCESSORS = ['url', 'query_map', 'hostname_with_port', 'to_dict', 'is_port_defau
              '__repr__', '__hash__', '__eq__', '__ne__']
 
 
+def _accessors(ui):
+    """The documented ones plus whatever the class offers for reading today: every property and every public method that
+    takes nothing but self (a field turned into a lazily computed property is an accessor like any other)."""
+    out = list(ACCESSORS)
+    for name, m in sorted(ui.methods.items()):
+        if name in out or name.startswith('_'):
+            continue
+        decos = {dotted(d) or '' for d in m.node.decorator_list}
+        if decos & {'classmethod', 'staticmethod'}:
+            continue
+        a = m.node.args
+        required = len(a.args) - len(a.defaults) - 1
+        if m.is_property or required <= 0:
+            out.append(name)
+    return out
+
+
 def run(ctx):
     repo, ck, res = ctx.repo, ctx.check, ctx.res
     mod = repo.module(URL)
@@ -44,10 +61,12 @@ def run(ctx):
     # ------------------------------------------------------------------ D1
     entries = dict(ENTRIES)
     ui = repo.cls(URL + ':URLInfo')
-    for a in ACCESSORS:
+    for a in _accessors(ui):
         m = ui.methods.get(a)
         if m is not None:
             entries[m.qual] = False      # a parsed result's attributes "can all be read": an accessor may not raise at all
+    for q in sorted(entries):
+        esc.escapes(repo.func(q))       # all summaries first: the justification below looks at every accessor's callees
     for q, allow_value_error in sorted(entries.items()):
         fi = repo.func(q)
         items = esc.escapes(fi)
@@ -236,7 +255,7 @@ def _none_field_rule(ctx, ui):
                     set_there.add(t.attr)
     none_fields = [f for f in all_fields if f not in set_there and not f.startswith('_')]
     ck.info['non_network_none_fields'] = none_fields
-    for a in ACCESSORS:
+    for a in _accessors(ui):
         m = ui.methods.get(a)
         if m is None:
             continue
